@@ -1,9 +1,11 @@
 pub mod c05;
+pub mod c09;
+pub mod c11;
 
 use crate::core::Prop;
 
 pub fn all() -> Vec<Box<dyn Prop>> {
-    vec![Box::new(c05::C05)]
+    vec![Box::new(c05::C05), Box::new(c09::C09), Box::new(c11::C11)]
 }
 
 pub fn by_id(id: &str) -> Option<Box<dyn Prop>> {
